@@ -14,6 +14,8 @@
 (* Merge copy path: the source's non-empty blocks are walked record by     *)
 (* record and re-added under new document numbers.                         *)
 (* Records are abstract (one unit each, identified by their document).     *)
+(* Deviations: "NoFinalFlush", a reader with another block size,           *)
+(* "EarlyFlush" (seeded C03-q), "HoistedBlockStart" (seeded C06-o).        *)
 (***************************************************************************)
 EXTENDS Integers, Sequences, FiniteSets, TLC
 
@@ -25,6 +27,8 @@ vars == <<n1, n2>>
 \* coder state: [buf : Seq(rec), n : records added, blocks : Seq(Seq(rec)) written, offs : Seq(Nat), index : Seq(Nat)]
 Fresh == [buf |-> <<>>, n |-> 0, blocks |-> <<>>, offs |-> <<0>>, bytes |-> 0, index |-> <<>>]
 
+EarlyAt == 2       \* the deviation's bound on pending records (stands for megabytes of pending bytes)
+
 Flush(c) ==
     IF c.buf # <<>>
     THEN [c EXCEPT !.blocks = Append(@, c.buf), !.bytes = @ + Len(c.buf), !.offs = Append(@, c.bytes + Len(c.buf)), !.buf = <<>>]
@@ -32,7 +36,7 @@ Flush(c) ==
 
 Add(c, rec) ==
     LET c1 == [c EXCEPT !.index = Append(@, Len(c.buf)), !.buf = Append(@, rec), !.n = @ + 1] IN
-    IF c1.n % BS = 0 THEN Flush(c1) ELSE c1
+    IF c1.n % BS = 0 \/ ("EarlyFlush" \in Dev /\ Len(c1.buf) >= EarlyAt) THEN Flush(c1) ELSE c1      \* seeded C03-q: a memory bound flushes inside a block
 
 RECURSIVE AddAll(_, _)
 AddAll(c, recs) == IF recs = <<>> THEN c ELSE AddAll(Add(c, Head(recs)), Tail(recs))
@@ -58,7 +62,14 @@ CopyInto(c, src) ==
     LET RECURSIVE Walk(_, _)
         Walk(acc, k) == IF k + 2 > Len(src.offs) THEN acc
                         ELSE LET b == BlockBytes(src, k) IN
-                             Walk(IF src.offs[k + 1] = src.offs[k + 2] THEN acc ELSE AddAll(acc, b), k + 1)
+                             Walk(IF src.offs[k + 1] = src.offs[k + 2] THEN acc
+                                  ELSE IF "HoistedBlockStart" \in Dev
+                                  THEN \* seeded C06-o: the offset of a copied record = (pending size when its SOURCE block was
+                                       \* started) + its offset in the source block - wrong once the destination flushes meanwhile
+                                       LET start == Len(acc.buf)
+                                           r == AddAll(acc, b)
+                                       IN [r EXCEPT !.index = SubSeq(r.index, 1, Len(acc.index)) \o [j \in 1..Len(b) |-> start + j - 1]]
+                                  ELSE AddAll(acc, b), k + 1)
     IN Walk(c, 0)
 
 Merged == Finish(CopyInto(CopyInto(Fresh, BuiltSeg(1, n1)), BuiltSeg(2, n2)))
